@@ -35,6 +35,9 @@ type sEnd struct {
 	Prog2 []sOp `json:"prog2,omitempty"`
 	// callback mode: once OnData has consumed AckAt bytes in total it flushes a one-byte acknowledgement (0 = never)
 	AckAt int `json:"ack_at,omitempty"`
+	// callback mode: a policy's More is not bounded by what the peer is going to flush: the invocation waits for bytes that never
+	// come, only a close of the stream or the end of the session can release it
+	WaitBeyond bool `json:"wait_beyond,omitempty"`
 }
 
 type sStream struct {
@@ -103,6 +106,7 @@ type cbAdapter struct {
 	// expect: bytes the peer's programs are going to flush in total (bound for More)
 	expect int
 	noMore bool
+	beyond bool
 }
 
 func (a *cbAdapter) OnData(reader BufferReader) {
@@ -132,7 +136,7 @@ func (a *cbAdapter) OnData(reader BufferReader) {
 	waits := false
 	if p.More > 0 && !a.noMore {
 		more := a.expect - len(e.read) - reader.Len()
-		if more > p.More {
+		if more > p.More || a.beyond {
 			more = p.More
 		}
 		if more > 0 {
@@ -240,7 +244,7 @@ func runStreamsObs(c streamsCase, r *runCtx, setup func(h *streamsHist)) *stream
 		e := h.ends[i][1]
 		e.stream = s
 		if len(c.Streams[i].S.CB) > 0 {
-			if err := s.SetCallbacks(&cbAdapter{h: h, e: e, pol: c.Streams[i].S.CB, key: s.id, ackAt: c.Streams[i].S.AckAt, fail: fail, expect: flushTotal(c.Streams[i].C)}); err != nil {
+			if err := s.SetCallbacks(&cbAdapter{h: h, e: e, pol: c.Streams[i].S.CB, key: s.id, ackAt: c.Streams[i].S.AckAt, fail: fail, expect: flushTotal(c.Streams[i].C), beyond: c.Streams[i].S.WaitBeyond}); err != nil {
 				fail("SetCallbacks: %v", err)
 			}
 		}
@@ -364,7 +368,7 @@ func runStreamsObs(c streamsCase, r *runCtx, setup func(h *streamsHist)) *stream
 		ce := h.ends[i][0]
 		ce.stream = st
 		if len(c.Streams[i].C.CB) > 0 {
-			if err := st.SetCallbacks(&cbAdapter{h: h, e: ce, pol: c.Streams[i].C.CB, key: st.id, ackAt: c.Streams[i].C.AckAt, fail: fail, expect: flushTotal(c.Streams[i].S)}); err != nil {
+			if err := st.SetCallbacks(&cbAdapter{h: h, e: ce, pol: c.Streams[i].C.CB, key: st.id, ackAt: c.Streams[i].C.AckAt, fail: fail, expect: flushTotal(c.Streams[i].S), beyond: c.Streams[i].C.WaitBeyond}); err != nil {
 				harnessFail("SetCallbacks: %v", err)
 			}
 		}
